@@ -419,37 +419,7 @@ def dotdot_does_not_cancel_dotdot(ctx):
     ctx.floor("R17.8", "pop_back sites in standardize", len(pops), 2)
 
 
-def _reaches_avoiding(f, src, via, sink):
-    """True if `sink` can be reached from just after `src` without executing any node of `via` (element-granular walk
-    over the CFG; all arguments are tree nodes)."""
-    cfg = f.cfg
-    ls, lk = cfg.locate(src), cfg.locate(sink)
-    if ls is None or lk is None:
-        return True
-    stops = {}
-    for v in via:
-        lv = cfg.locate(v)
-        if lv is not None:
-            stops.setdefault(lv[0], []).append(lv[1])
-    seen = set()
-    stack = [(ls[0], ls[1] + 1)]
-    while stack:
-        b, i = stack.pop()
-        if (b, i > 0) in seen:
-            continue
-        seen.add((b, i > 0))
-        cut = min([j for j in stops.get(b, []) if j >= i], default=None)
-        if lk[0] == b and lk[1] >= i and (cut is None or lk[1] < cut):
-            return True
-        if cut is not None:
-            continue
-        blk = cfg.blocks[b]
-        if blk.noret:
-            continue
-        for s in blk.succs:
-            if s is not None:
-                stack.append((s, 0))
-    return False
+_reaches_avoiding = G.reaches_avoiding
 
 
 def search_directories_absolute_before_chdir(ctx):
